@@ -38,21 +38,22 @@ type loopInfo struct {
 
 // Frame executes one function body (top-level or inlined).
 type Frame struct {
-	fx       *Fx
-	fn       *ssa.Function
-	key      string
-	vals     map[ssa.Value]Val
-	contract *Contract
-	depth    int
-	entry    *State
-	params   map[string]Val
-	defers   []*ssa.Defer
-	rets     []retEdge
-	top      bool
-	stack    []string
-	loops    map[*ssa.BasicBlock]*loopInfo
-	debugRef map[string][]*ssa.DebugRef
-	mutSet   map[ssa.Value]bool
+	fx         *Fx
+	fn         *ssa.Function
+	key        string
+	vals       map[ssa.Value]Val
+	contract   *Contract
+	depth      int
+	entry      *State
+	params     map[string]Val
+	defers     []*ssa.Defer
+	deferGuard map[*ssa.Defer]string
+	rets       []retEdge
+	top        bool
+	stack      []string
+	loops      map[*ssa.BasicBlock]*loopInfo
+	debugRef   map[string][]*ssa.DebugRef
+	mutSet     map[ssa.Value]bool
 	// lock protecting the contents of maps loaded from guarded fields
 	rangeMods  []rangeMod
 	pointDone  map[int]bool
